@@ -232,6 +232,7 @@ def check(chk):
 
     _show_events(chk, repo)
     _token_cache(chk, repo)
+    _replace_or_advance(chk, repo)
 
     # ------------------------------------------------------------ FLOW-8
     lp = repo.cls(LP, "LightPlayer")
@@ -436,6 +437,51 @@ def _show_events(chk, repo):
                text="colour arguments")
 
 
+def _replace_or_advance(chk, repo):
+    """SYNC-17: replace_or_advance_show keeps or advances the running instance instead of replacing it only when that instance has
+    already run a step (current_step_index is not None) and stands exactly at / one step before the requested step.  A show that is
+    still waiting for its sync point has run nothing: treating it as "one step behind" advances it off the sync grid.
+    UPD-17: update() applies every value that was given (is not None) -- also False / 0."""
+    SC = "mpf/core/show_controller.py"
+    f = repo.func(SC, "ShowController.replace_or_advance_show")
+    chk.analysed(f)
+    cfg = f.cfg()
+    keep = [n for n in cfg.nodes if n.kind == "stmt" and isinstance(n.ast, ast.Return) and n.ast.value is not None and src(n.ast.value) == "old_instance"]
+    adv = [n for n, c in cfg.calls_named("advance") if src(c.func.value) == "old_instance"]
+    chk.need(keep and adv, "SYNC-17", "replace_or_advance_show can keep or advance the running instance", f)
+    RAN = "old_instance.current_step_index is not None"
+    n_k = 0
+    for n in keep:
+        g = cfg.guards_at(n.id)
+        if g.get("start_step is None") is True:
+            continue        # the "same config, no step requested" shortcut
+        n_k += 1
+        at = g.get("old_instance.current_step_index + 1 == start_step") is True
+        behind = g.get("old_instance.current_step_index + 2 == start_step") is True
+        chk.ob("SYNC-17", "the running instance is kept only if it has run a step and stands at (or was just advanced to) the requested step", g.get(RAN) is True and (at or behind),
+               f.where(n.ast), detail=str(sorted((k, v) for k, v in g.items() if "step" in k)), construct=f.ident, text="keep running instance guard")
+    for n in adv:
+        g = cfg.guards_at(n.id)
+        ok = g.get(RAN) is True and g.get("old_instance.current_step_index + 2 == start_step") is True
+        chk.ob("SYNC-17", "the running instance is advanced only if it has run a step and is exactly one step behind", ok, f.where(n.ast),
+               detail=str(sorted((k, v) for k, v in g.items() if "step" in k)), construct=f.ident, text="advance running instance guard")
+    chk.ob("SYNC-17", "keep / advance shortcuts examined", n_k >= 2 and len(adv) == 1, f.where(), detail="%d keep, %d advance" % (n_k, len(adv)), nontrivial=False)
+    u = repo.func(SH, "RunningShow.update")
+    chk.analysed(u)
+    comps = [x for x in walk_local(u.node) if isinstance(x, ast.DictComp)]
+    ok = len(comps) == 1 and len(comps[0].generators) == 1 and len(comps[0].generators[0].ifs) == 1
+    if ok:
+        t = comps[0].generators[0].ifs[0]
+        vv = src(comps[0].value)
+        ok = isinstance(t, ast.Compare) and len(t.ops) == 1 and isinstance(t.ops[0], ast.IsNot) and src(t.left) == vv and isinstance(t.comparators[0], ast.Constant) and \
+            t.comparators[0].value is None
+    chk.ob("UPD-17", "update() applies every value that was given: only None means \"not given\" (False and 0 are values)", ok, u.where(), construct=u.ident,
+           text="update value filter")
+    rp = [c for c in u.calls() if call_attr(c) == "_replace"]
+    chk.ob("UPD-17", "the given values replace the show's configuration", len(rp) == 1 and any(k.arg is None for k in rp[0].keywords), u.where(), construct=u.ident,
+           text="update applies values")
+
+
 def _token_cache(chk, repo):
     """CACHE-17: the per-token step cache is keyed by the whole token mapping.  The cached steps depend on token *names and values*
     (both are substituted); a key built from part of the mapping (`.values()`, `.keys()`, a single entry, `len`) makes two different
@@ -509,6 +555,8 @@ def battery():
         M("twin: caller's events copied", SH, "        events = []\n        if post_events:\n            events.extend(post_events)", "        events = list(post_events) if post_events else []", None),
         M("step cache keyed by the token values only", SH, "            token_hash = hash(str(show_tokens))", "            token_hash = hash(tuple(show_tokens.values()))", "CACHE-17"),
         M("twin: step cache keyed by the sorted items", SH, "            token_hash = hash(str(show_tokens))", "            token_hash = hash(tuple(sorted(show_tokens.items())))", None),
+        M("a show still waiting for its sync point is advanced", "mpf/core/show_controller.py", "            elif old_instance.current_step_index is not None and \\\n                    old_instance.current_step_index + 2 == start_step:", "            elif old_instance.next_step_index + 1 == start_step:", "SYNC-17"),
+        M("update() drops falsy values", SH, "updated_values = {k: v for k, v in kwargs.items() if v is not None}", "updated_values = {k: v for k, v in kwargs.items() if v}", "UPD-17"),
     ]
 
 
